@@ -87,6 +87,17 @@ def run_unit(tpath, repo_root, seed, build_dir=BUILD, tag='', canary=None, expan
         r['reason'] = 'resource limit: ' + '; '.join(m['obligation'] for m in r['resource'][:5])
     elif r['failures']:
         r['status'] = 'fail'
+        # failures inside a function whose proof hints were dropped (restructured code, weave 'degraded'): undecided
+        degraded = {'%s/%s' % (ub.name, ex['alias']): ex['degraded'] for ex in ub.extracts if ex.get('degraded')}
+        if degraded:
+            lost = [m for m in r['failures'] if m.get('owner') in degraded]
+            if lost:
+                r['failures'] = [m for m in r['failures'] if m.get('owner') not in degraded]
+                r['degraded_failures'] = lost
+                if not r['failures']:
+                    r['status'] = 'undecided'
+                    r['reason'] = 'restructured function, proof hints lost (%s): %s could not be discharged without them' % (
+                        '; '.join(x for v in degraded.values() for x in v)[:600], ', '.join(sorted(set(m['obligation'] for m in lost)))[:600])
     elif not vr.get('success'):
         r['status'] = 'undecided'
         r['reason'] = 'verus reported failure without a mapped diagnostic'
